@@ -258,6 +258,11 @@ var texts12 = []struct {
 	{"SELECT ARRAY(a, s, o, n) AS arr FROM t", false, false},
 	{"SELECT a, UNWIND(n) AS p FROM t", false, false},
 	{"SELECT g, COUNT(*) AS k, * FROM t GROUP BY g", true, false},
+	// grouping columns whose values read alike when written one after the other ("a b", "c") / ("a", "b c")
+	{"SELECT f, l, COUNT(*) AS n FROM p GROUP BY f, l", true, false},
+	{"SELECT l, f, COUNT(*) AS n, SUM(v) AS s FROM p GROUP BY l, f", true, false},
+	{"SELECT v FROM `p[(1:end)]`", false, false},
+	{"SELECT v FROM `p[(begin:2)]` WHERE v > 0", false, false},
 }
 
 func doc12() map[string]any {
@@ -275,11 +280,45 @@ func doc12() map[string]any {
 			map[string]any{"a": 3.0, "g": 0.0, "s": "x", "o": map[string]any{"k": 2.0}, "n": n(3)},
 		},
 		"u": []any{map[string]any{"c": 3.0, "big": 1e308}, map[string]any{"c": 1.0, "big": 1.5e308}},
+		"p": []any{map[string]any{"f": "a b", "l": "c", "v": 1.0}, map[string]any{"f": "a", "l": "b c", "v": 2.0}, map[string]any{"f": "a b", "l": "c", "v": 3.0},
+			map[string]any{"f": "1", "l": "12", "v": 4.0}, map[string]any{"f": "11", "l": "2", "v": 5.0}},
 	}
 }
 
 func init() {
 	Drivers["C12:texts"] = func(emit func(Verdict)) {
+		// a result is a function of (query, document), not of what the process evaluated before: one selector text with an
+		// open range, first on a short table, then on a longer one (and back)
+		for _, h := range []struct {
+			sql  string
+			lens []int
+			want func(n int) []float64
+		}{
+			{"SELECT v FROM `q[(1:end)]`", []int{2, 5, 3, 5}, func(n int) []float64 { return seqF(2, n) }},
+			{"SELECT v FROM `q[(begin:2)]`", []int{5, 2, 4}, func(n int) []float64 { return seqF(1, 2) }},
+			{"SELECT v FROM `q[(0:end)]` WHERE v > 1", []int{1, 4, 2}, func(n int) []float64 { return seqF(2, n) }},
+		} {
+			sig := []string{"text", "history"}
+			v := Verdict{OK: true, SQL: h.sql, Sig: sig, Nontrivial: true}
+			for step, n := range h.lens {
+				rows := []any{}
+				for i := 1; i <= n; i++ {
+					rows = append(rows, map[string]any{"v": float64(i)})
+				}
+				out := Run(map[string]any{"q": rows}, h.sql, false)
+				v.Execs++
+				want := []any{}
+				for _, x := range h.want(n) {
+					want = append(want, map[string]any{"v": x})
+				}
+				if out.Panic != nil || out.Err != nil || !Equal(any(out.Rows), any(want)) {
+					v = fail("nondet", h.sql, sig, "step %d, a table of %d rows after tables of %v rows: want %s got %s", step+1, n, h.lens[:step], Canon(any(want)), out.Describe())
+					break
+				}
+			}
+			v.Key, v.Case = h.sql+"/history", Node{"sql": h.sql, "lens": fmt.Sprint(h.lens)}
+			emit(v)
+		}
 		for _, tc := range texts12 {
 			for _, variant := range []string{"plain", "json"} {
 				sig := []string{"text", "variant:" + variant}
@@ -340,4 +379,12 @@ func init() {
 			}
 		}
 	}
+}
+
+func seqF(from, to int) []float64 {
+	out := []float64{}
+	for i := from; i <= to; i++ {
+		out = append(out, float64(i))
+	}
+	return out
 }
